@@ -45,13 +45,22 @@ def Subs.names : Subs → List String
   | .nil => []
   | .cons k _ more => k :: Subs.names more
 
+/-- `ModuleTrie::type_module_name`'s loop: while a submodule of the same module goes by the name, append `_`
+(fuel: one more than there are submodules — `fresh_not_mem` shows that this many rounds always reach a free name) -/
+def fresh : Nat → List String → String → String
+  | 0, _, t => t
+  | n + 1, taken, t => if taken.contains t then fresh n taken (t ++ "_") else t
+
+/-- the module a type is written to, given the submodules beside it -/
+def typeModule (subs : List String) (t : String) : String := fresh (subs.length + 1) subs t
+
 mutual
 /-- `ModuleTrie::render`: one file per type, then the submodules in key order, then `mod.rs`; returns
 (path components beneath the output directory, contents) in the order files are written -/
 def Trie.render : Trie → List String → List (List String × String)
   | .node types subs, dir =>
-    types.map (fun t => (dir ++ [t.1 ++ ".rs"], t.2)) ++ Subs.render subs dir ++
-      [(dir ++ ["mod.rs"], ", ".intercalate (types.map (·.1) ++ Subs.names subs))]
+    types.map (fun t => (dir ++ [typeModule (Subs.names subs) t.1 ++ ".rs"], t.2)) ++ Subs.render subs dir ++
+      [(dir ++ ["mod.rs"], ", ".intercalate (types.map (fun t => typeModule (Subs.names subs) t.1) ++ Subs.names subs))]
 def Subs.render : Subs → List String → List (List String × String)
   | .nil, _ => []
   | .cons name t rest, dir => Trie.render t (dir ++ [name]) ++ Subs.render rest dir
@@ -67,17 +76,45 @@ def generate {κ ν : Type} [BEq κ] (table : Table κ ν) (items : List Item)
     (emit : (κ → Option ν) → Item → String) : List (List String × String) :=
   (items.foldl (fun t it => Trie.insert it.modulePath (it.name, emit table.get it) t) Trie.empty).render []
 
+/-- `ModuleTrie::render(dir, lib_root)`: as `Trie.render`, the root file being `lib.rs` when `lib_root` -/
+def Trie.renderRoot (lib : Bool) : Trie → List String → List (List String × String)
+  | .node types subs, dir =>
+    types.map (fun t => (dir ++ [typeModule (Subs.names subs) t.1 ++ ".rs"], t.2)) ++ Subs.render subs dir ++
+      [(dir ++ [if lib then "lib.rs" else "mod.rs"],
+        ", ".intercalate (types.map (fun t => typeModule (Subs.names subs) t.1) ++ Subs.names subs))]
+
+/-- `generate_files_inner` for a full crate (`Config::build_crate`): the manifest and the formatter configuration in
+the output directory itself, the module tree beneath `src` with `lib.rs` as its root -/
+def generateCrate {κ ν : Type} [BEq κ] (table : Table κ ν) (items : List Item)
+    (emit : (κ → Option ν) → Item → String) (manifest : String) : List (List String × String) :=
+  [(["Cargo.toml"], manifest), (["rustfmt.toml"], "disable_all_formatting = true\n")] ++
+  (items.foldl (fun t it => Trie.insert it.modulePath (it.name, emit table.get it) t) Trie.empty).renderRoot true ["src"]
+
+def badChar (c : Char) : Bool := c == '/' || c == '\\' || c == '\x00'
+
 /-- a path component that stays beneath the directory it is joined to: non-empty, no separator, not `.`/`..` -/
 def safeComponent (s : String) : Bool :=
-  !s.isEmpty && s != "." && s != ".." && !s.toList.any (fun c => c == '/' || c == '\\' || c == '\x00')
+  !s.toList.isEmpty && s.toList != ['.'] && s.toList != ['.', '.'] && !s.toList.any badChar
+
+/-- `k` underscores -/
+def us (k : Nat) : String := String.ofList (List.replicate k '_')
 
 mutual
-/-- every component the renderer can join to the output directory -/
-def Trie.components : Trie → List String
-  | .node types subs => types.map (fun t => t.1 ++ ".rs") ++ "mod.rs" :: Subs.components subs
-def Subs.components : Subs → List String
+/-- the (unrenamed) module names of all types in the trie -/
+def Trie.typeNames : Trie → List String
+  | .node types subs => types.map (·.1) ++ Subs.typeNames subs
+def Subs.typeNames : Subs → List String
   | .nil => []
-  | .cons k t more => k :: Trie.components t ++ Subs.components more
+  | .cons _ t more => Trie.typeNames t ++ Subs.typeNames more
+end
+
+mutual
+/-- the names of all submodules in the trie -/
+def Trie.modNames : Trie → List String
+  | .node _ subs => Subs.modNames subs
+def Subs.modNames : Subs → List String
+  | .nil => []
+  | .cons k t more => k :: Trie.modNames t ++ Subs.modNames more
 end
 
 /-! ### line protocol: the file tree for a list of items
@@ -110,6 +147,15 @@ def handle : List String → String
         | some items =>
           let files := generate ([] : Table Nat Nat) items (fun _ _ => "")
           -- (sorted: the harness reads the tree back from the file system, which has no writing order)
+          ";".intercalate ((files.map (fun f => "/".intercalate f.1)).toArray.qsort (· < ·)).toList
+        | none => "bad-op")
+    | _ => "bad-op"
+  | ["crate", items] =>
+    match parse items with
+    | some (.list (.atom "items" :: is)) =>
+      (match rdItems is with
+        | some items =>
+          let files := generateCrate ([] : Table Nat Nat) items (fun _ _ => "") ""
           ";".intercalate ((files.map (fun f => "/".intercalate f.1)).toArray.qsort (· < ·)).toList
         | none => "bad-op")
     | _ => "bad-op"
